@@ -216,6 +216,14 @@ func (r *run) sequence(nsteps int) {
 			}
 			out := vr.OnAppendResp(term, result, lastLog, reqLast)
 			after := vr.State()
+			// C17: a mismatch answer from a follower that is not faulty makes the probe progress: nextIndex
+			// strictly decreases and never stays above the follower's last index + 1
+			if (result == 7 || result == 8) && lastLog >= before.MatchIndex && out.Err == "" && out.Panic == "" {
+				if !(after.NextIndex < before.NextIndex && after.NextIndex <= lastLog+1) {
+					r.fail("monitor", fmt.Sprintf("probe does not progress: follower answered mismatch with last index %d, nextIndex %d -> %d", lastLog, before.NextIndex, after.NextIndex), "C17", nil)
+					return
+				}
+			}
 			if !r.compare("onResp", map[string]interface{}{"term": term, "result": result, "lastLogIndex": lastLog, "reqLastIndex": reqLast}, before, out, after) {
 				return
 			}
